@@ -797,4 +797,27 @@ theorem tie_cond_bindRoute (chain : Option Nat) (jwt : Option (String × String)
     have : prev = "" := by simpa using h
     rw [this]
 
+/-- **what the constructed values are fed from** (typed field lists): `WithPrefix` builds
+`Route{Method: rt.Method, Path: path.Join(group, rt.Path), Handler: rt.Handler}` — the model's
+`prefixReg g r = (r.1, joinGo g r.2.1, r.2.2)` (method and handler of the SAME route, group first in `Join`);
+`AddRoutes` starts from `featuredRoutes{routes: rs}` (the caller's slice, not a copy: model `RoutesRef.caller`), runs every
+option on `&r` and hands `r` to `engine.addRoutes`; `NewServer` pairs a new engine with a FRESH `router.NewRouter()`,
+`NewRouter` a fresh `trees` map, `NewTree` a root `newNode(nil)`, `newNode` two fresh children maps (model `newNode`,
+`({} : PatRouter)`: no state shared between instances — mutations M16, M23). -/
+theorem tie_fields :
+    withPrefixRouteFields = [("Method", "rt.Method"), ("Path", "p"), ("Handler", "rt.Handler")] ∧
+    argsOf withPrefixCalls "path.Join" = [["group", "rt.Path"]] ∧
+    addRoutesFeaturedFields = [("routes", "rs")] ∧
+    serverAddRoutesCalls = [("opt", ["&r"]), ("s.ngin.addRoutes", ["r"])] ∧
+    newServerFields = [("ngin", "newEngine(c)"), ("router", "router.NewRouter()")] ∧
+    newRouterFields = [("trees", "make(map[string]*search.Tree)")] ∧
+    newTreeFields = [("root", "newNode(nil)")] ∧
+    newNodeFields = [("item", "item"),
+      ("children", "[2]map[string]*node{ make(map[string]*node), make(map[string]*node), }")] :=
+  ⟨rfl, rfl, rfl, rfl, rfl, rfl, rfl, rfl⟩
+
+/-- … and the model's `prefixReg` has exactly this shape. -/
+theorem tie_prefixReg (g : String) (r : Reg) :
+    (prefixReg g r).1 = r.1 ∧ (prefixReg g r).2.1 = joinGo g r.2.1 ∧ (prefixReg g r).2.2 = r.2.2 := ⟨rfl, rfl, rfl⟩
+
 end GoZero.C09.Tie
